@@ -129,8 +129,10 @@ func (p *Proxy) serveClients(ctx context.Context) {
 func (p *Proxy) forwardRpc(source string, rpc *goatorepo.Rpc) {
 	// Sanity check RPC first
 	if rpc.Header == nil || rpc.Header.Source != source {
-		log.Warn().Msgf("Bad Rpc: %v", rpc)
-		log.Panic().Msg("TODO: handle invalid RPC here (log and ignore?)")
+		// A peer must not be able to take the proxy down, nor to speak for
+		// another peer: log and ignore.
+		log.Warn().Msgf("Bad Rpc from %s: %v", source, rpc)
+		return
 	}
 
 	// Apply any sort of address translation first: this allows implementing a
